@@ -214,6 +214,7 @@ package xmpp
 //@ event ChanSend(ch Ref)
 //@ event ChanSend_IQ(ch Ref, v stanza.IQ)
 //@ event Close(ch Ref)
+//@ event ChanRecv(ch Ref)
 //@ event MapGet_IQResultRoutes(o Ref, k Str, found Bool, v *xmpp.IQResultRoute)
 //@ event MapSet_IQResultRoutes(o Ref, k Str, v *xmpp.IQResultRoute)
 //@ event MapDel_IQResultRoutes(o Ref, k Str, had Bool, v *xmpp.IQResultRoute)
@@ -839,11 +840,12 @@ package xmpp
 //@ func (*xmpp.Router).NewIQResultRoute$1(route, r, id)
 //@   requires r != nil && r.IQResultRoutes != nil && route != nil && route.context != nil && lockFree(r)
 //@   ensures [C07.cleanup.own]   dropsOwn(r, id) && (count(MapDel_IQResultRoutes) > old(count(MapDel_IQResultRoutes)) ==> last(MapDel_IQResultRoutes, 3) == route)
+//@   ensures [C07.cleanup.waits] count(MapDel_IQResultRoutes) > old(count(MapDel_IQResultRoutes)) ==> count(DoneAsked) > old(count(DoneAsked)) && last(DoneAsked, 0) == route.context && count(ChanRecv) > old(count(ChanRecv)) && last(ChanRecv, 0) == last(DoneAsked, 1) && atlast(ChanRecv) < atlast(MapDel_IQResultRoutes)
 //@   ensures [C07.cleanup.quiet] count(MapSet_IQResultRoutes) == old(count(MapSet_IQResultRoutes)) && count(ChanSend) == old(count(ChanSend)) && count(Close) == old(count(Close))
 //@   ensures [C07.cleanup.lock]  lockFree(r)
 //@   elems r.IQResultRoutes
 //@   assigns locked(addr(r.IQResultRouteLock)), rlocked(addr(r.IQResultRouteLock))
-//@   emits MapGet_IQResultRoutes, MapDel_IQResultRoutes, ChanRecv
+//@   emits MapGet_IQResultRoutes, MapDel_IQResultRoutes, ChanRecv, DoneAsked
 //
 // SendIQ: the pending entry exists before the request is written (a response can only follow the write, so it finds
 // the entry whenever it arrives), the caller gets that entry's channel, and a request that could not be written
